@@ -7,6 +7,7 @@ use ckb_hash::blake2b_256;
 use ckb_store::ChainStore;
 use ckb_types::core::cell::{CellProvider, CellStatus};
 use ckb_types::core::BlockView;
+use ckb_types::packed::Byte32;
 use ckb_types::prelude::*;
 use hx_common::*;
 use serde_json::{json, Value};
@@ -173,36 +174,50 @@ fn dn(b: &[u8]) -> u128 {
 /// One observation for the parts-level model (Freezer/FreezeParts.v): the main chain with its parts as the
 /// blocks were built, Freezer::number(), which blocks still have their part rows in the key-value store
 /// (read raw, not through the getters), and every part getter's answer.
-fn pcase_coq(node: &Node, main: &[BlockView]) -> String {
+fn pcase_coq(node: &Node, main: &[BlockView], side: &[BlockView]) -> String {
     use ckb_db_schema::COLUMN_BLOCK_UNCLE;
     let store = node.shared.store();
     let frozen = store.freezer().map(|f| f.number()).unwrap_or(1).saturating_sub(1);
     let blk = |hdr: u128, body: Vec<u128>, u: u128, p: u128, e: Option<u128>| {
         format!("({}, {}, {}, {}, {})", coq_n(hdr), coq_list(&body, |x| coq_n(*x)), coq_n(u), coq_n(p), coq_option(&e, |x| coq_n(*x)))
     };
+    let mk = |b: &BlockView| {
+        let body: Vec<u128> = b.transactions().iter().map(|t| dn(t.hash().as_slice())).collect();
+        format!("mkBlk {} {} {} {} {} {}", coq_n(dn(b.hash().as_slice())), coq_n(dn(b.header().data().as_slice())), coq_list(&body, |x| coq_n(*x)),
+            coq_n(dn(b.uncles().data().as_slice())), coq_n(dn(b.data().proposals().as_slice())), coq_option(&b.extension().map(|e| dn(e.as_slice())), |x| coq_n(*x)))
+    };
+    let observe_one = |hash: &Byte32| {
+        let whole = |v: Option<BlockView>| v.map(|v| blk(dn(v.header().data().as_slice()), v.transactions().iter().map(|t| dn(t.hash().as_slice())).collect(),
+            dn(v.uncles().data().as_slice()), dn(v.data().proposals().as_slice()), v.extension().map(|e| dn(e.as_slice()))));
+        let packed_view = store.get_packed_block(hash).map(|p| p.into_view());
+        format!("mkPObs {} {} {} {} {} {} {} {}",
+            coq_option(&store.get_block_header(hash).map(|h| dn(h.data().as_slice())), |x| coq_n(*x)),
+            coq_list(&store.get_block_body(hash).iter().map(|t| dn(t.hash().as_slice())).collect::<Vec<_>>(), |x| coq_n(*x)),
+            coq_option(&store.get_cellbase(hash).map(|t| dn(t.hash().as_slice())), |x| coq_n(*x)),
+            coq_option(&store.get_block_uncles(hash).map(|u| dn(u.data().as_slice())), |x| coq_n(*x)),
+            coq_option(&store.get_block_proposal_txs_ids(hash).map(|p| dn(p.as_slice())), |x| coq_n(*x)),
+            coq_option(&store.get_block_extension(hash).map(|e| dn(e.as_slice())), |x| coq_n(*x)),
+            coq_option(&whole(store.get_block(hash)), |x| x.clone()),
+            coq_option(&whole(packed_view), |x| x.clone()))
+    };
     let mut mains = vec![];
     let mut rows = vec![];
     let mut obs = vec![];
     for b in main.iter().skip(1) {
         let hash = b.hash();
-        let body: Vec<u128> = b.transactions().iter().map(|t| dn(t.hash().as_slice())).collect();
-        mains.push(format!("mkBlk {} {} {} {} {} {}", coq_n(dn(hash.as_slice())), coq_n(dn(b.header().data().as_slice())), coq_list(&body, |x| coq_n(*x)),
-            coq_n(dn(b.uncles().data().as_slice())), coq_n(dn(b.data().proposals().as_slice())), coq_option(&b.extension().map(|e| dn(e.as_slice())), |x| coq_n(*x))));
+        mains.push(mk(b));
         rows.push(store.get(COLUMN_BLOCK_UNCLE, hash.as_slice()).is_some());
-        let whole = |v: Option<BlockView>| v.map(|v| blk(dn(v.header().data().as_slice()), v.transactions().iter().map(|t| dn(t.hash().as_slice())).collect(),
-            dn(v.uncles().data().as_slice()), dn(v.data().proposals().as_slice()), v.extension().map(|e| dn(e.as_slice()))));
-        let packed_view = store.get_packed_block(&hash).map(|p| p.into_view());
-        obs.push(format!("mkPObs {} {} {} {} {} {} {} {}",
-            coq_option(&store.get_block_header(&hash).map(|h| dn(h.data().as_slice())), |x| coq_n(*x)),
-            coq_list(&store.get_block_body(&hash).iter().map(|t| dn(t.hash().as_slice())).collect::<Vec<_>>(), |x| coq_n(*x)),
-            coq_option(&store.get_cellbase(&hash).map(|t| dn(t.hash().as_slice())), |x| coq_n(*x)),
-            coq_option(&store.get_block_uncles(&hash).map(|u| dn(u.data().as_slice())), |x| coq_n(*x)),
-            coq_option(&store.get_block_proposal_txs_ids(&hash).map(|p| dn(p.as_slice())), |x| coq_n(*x)),
-            coq_option(&store.get_block_extension(&hash).map(|e| dn(e.as_slice())), |x| coq_n(*x)),
-            coq_option(&whole(store.get_block(&hash)), |x| x.clone()),
-            coq_option(&whole(packed_view), |x| x.clone())));
+        obs.push(observe_one(&hash));
     }
-    format!("mkPCase {} {} {} {}", coq_list(&mains, |x| x.clone()), coq_nat(frozen), coq_list(&rows, |b| coq_bool(*b)), coq_list(&obs, |x| x.clone()))
+    // side-chain blocks whose header row is still stored (siblings of main-chain blocks, also at frozen heights)
+    let mut sides = vec![];
+    let mut side_obs = vec![];
+    for b in side.iter().filter(|b| store.get(ckb_db_schema::COLUMN_BLOCK_HEADER, b.hash().as_slice()).is_some() && store.get(COLUMN_BLOCK_UNCLE, b.hash().as_slice()).is_some()) {
+        sides.push(format!("({}, {})", coq_nat(b.number()), mk(b)));
+        side_obs.push(observe_one(&b.hash()));
+    }
+    format!("mkPCase {} {} {} {} {} {}", coq_list(&mains, |x| x.clone()), coq_nat(frozen), coq_list(&rows, |b| coq_bool(*b)), coq_list(&obs, |x| x.clone()),
+        coq_list(&sides, |x| x.clone()), coq_list(&side_obs, |x| x.clone()))
 }
 
 pub fn run(seed: u64, thorough: bool, out_dir: &Path, scratch: &Path) -> Out {
@@ -245,7 +260,7 @@ pub fn run(seed: u64, thorough: bool, out_dir: &Path, scratch: &Path) -> Out {
         let main_views: Vec<BlockView> = h.main_chain().iter().map(|id| h.block_by_id(*id)).collect();
         // ---- before
         let o0 = observe(h.node(), false);
-        cf.push(1, pcase_coq(h.node(), &main_views));
+        cf.push(1, pcase_coq(h.node(), &main_views, &side));
         descs.entry("parts".into()).or_default().push(json!({"case": jhist, "at": "before the pass"}));
         let frozen0 = h.node().shared.store().freezer().map(|f| f.number()).unwrap_or(0);
         // pristine copy for the crash stream
@@ -279,7 +294,7 @@ pub fn run(seed: u64, thorough: bool, out_dir: &Path, scratch: &Path) -> Out {
                 }
                 *out.stats.entry("blocks_frozen".into()).or_default() += frozen1.saturating_sub(frozen0);
                 let o1 = observe(h.node(), false);
-                cf.push(1, pcase_coq(h.node(), &main_views));
+                cf.push(1, pcase_coq(h.node(), &main_views, &side));
                 descs.entry("parts".into()).or_default().push(json!({"case": jhist, "at": "after one pass"}));
                 let d = diff(&o0, &o1);
                 if !d.is_empty() {
@@ -295,12 +310,18 @@ pub fn run(seed: u64, thorough: bool, out_dir: &Path, scratch: &Path) -> Out {
                         out.viol.push(json!({"what": "a side-chain block above the frozen height was removed", "detail": {"case": jhist, "height": s.number()}}));
                     }
                 }
+                for b in side_reads(h.node(), &side).into_iter().take(2) {
+                    out.viol.push(json!({"what": format!("after a freeze pass: {b}"), "detail": {"case": jhist, "frozen_below": frozen1}}));
+                }
                 // restart
                 let node = h.node.take().unwrap();
                 node.stop();
                 h.node = Some(Node::on_disk(&consensus, &dir, true));
                 let o2 = observe(h.node(), true);
-                cf.push(1, pcase_coq(h.node(), &main_views));
+                for b in side_reads(h.node(), &side).into_iter().take(2) {
+                    out.viol.push(json!({"what": format!("after a freeze pass and a restart: {b}"), "detail": {"case": jhist, "frozen_below": frozen1}}));
+                }
+                cf.push(1, pcase_coq(h.node(), &main_views, &side));
                 descs.entry("parts".into()).or_default().push(json!({"case": jhist, "at": "after one pass and a restart"}));
                 let d = diff(&o0, &o2);
                 if !d.is_empty() {
@@ -355,11 +376,14 @@ pub fn run(seed: u64, thorough: bool, out_dir: &Path, scratch: &Path) -> Out {
                 let node = Node::on_disk(&consensus, &case_dir.join("node"), true);
                 let fnum = node.shared.store().freezer().map(|f| f.number()).unwrap_or(0);
                 let o = observe(&node, true);
-                let pc1 = pcase_coq(&node, &main_views);
+                let pc1 = pcase_coq(&node, &main_views, &side);
                 let d = diff(&o0, &o);
                 if !d.is_empty() {
                     viol.push(json!({"what": format!("after a crash during the freeze pass {} main-chain blocks / transactions / cells read differently or are lost", d.len()),
                         "detail": {"case": ctx, "first_differences": d.iter().take(6).map(|(k, a, b)| json!({"query": k, "before": a, "after": b})).collect::<Vec<_>>()}}));
+                }
+                for b in side_reads(&node, &side).into_iter().take(2) {
+                    viol.push(json!({"what": format!("after a crash during the freeze pass: {b}"), "signature": "C10-side-block-at-frozen-height-reads-as-main-block", "detail": {"case": ctx, "freezer_number": fnum}}));
                 }
                 // the next pass continues
                 let ft = ckb_systemtime::faketime();
@@ -369,11 +393,14 @@ pub fn run(seed: u64, thorough: bool, out_dir: &Path, scratch: &Path) -> Out {
                 }
                 let fnum2 = node.shared.store().freezer().map(|f| f.number()).unwrap_or(0);
                 let o = observe(&node, false);
-                let pc2 = pcase_coq(&node, &main_views);
+                let pc2 = pcase_coq(&node, &main_views, &side);
                 let d = diff(&o0, &o);
                 if !d.is_empty() {
                     viol.push(json!({"what": format!("after a crash during the freeze pass and a further pass {} main-chain blocks / transactions / cells read differently or are lost", d.len()),
                         "detail": {"case": ctx, "first_differences": d.iter().take(6).map(|(k, a, b)| json!({"query": k, "before": a, "after": b})).collect::<Vec<_>>()}}));
+                }
+                for b in side_reads(&node, &side).into_iter().take(2) {
+                    viol.push(json!({"what": format!("after a crash during the freeze pass and a further pass: {b}"), "signature": "C10-side-block-at-frozen-height-reads-as-main-block", "detail": {"case": ctx, "freezer_number": fnum2}}));
                 }
                 node.stop();
                 (viol, fnum, fnum2, pc1, pc2)
@@ -400,6 +427,52 @@ pub fn run(seed: u64, thorough: bool, out_dir: &Path, scratch: &Path) -> Out {
     cf.write().unwrap();
     std::fs::write(out_dir.join("cases_00.json"), serde_json::to_string(&descs).unwrap()).unwrap();
     out
+}
+
+/// a side-chain block that is still stored must read as itself (never as the main-chain block frozen at
+/// its height), through get_block, get_packed_block and the part getters
+fn side_reads(node: &Node, side: &[BlockView]) -> Vec<String> {
+    let store = node.shared.store();
+    let mut bad = vec![];
+    for s in side {
+        let h = s.hash();
+        // a block is removed as a whole: a header row without the part rows is a torn block
+        {
+            use ckb_db_schema::{COLUMN_BLOCK_PROPOSAL_IDS, COLUMN_BLOCK_UNCLE, COLUMN_BLOCK_HEADER};
+            let (hd, un, pr) = (store.get(COLUMN_BLOCK_HEADER, h.as_slice()).is_some(), store.get(COLUMN_BLOCK_UNCLE, h.as_slice()).is_some(), store.get(COLUMN_BLOCK_PROPOSAL_IDS, h.as_slice()).is_some());
+            if !hd {
+                // removed (its header may still be served by the header cache of this process: C14's known
+                // finding, not reported here): whole-block reads must answer None, not another block, not panic
+                match std::panic::catch_unwind(std::panic::AssertUnwindSafe(|| (store.get_block(&h).map(|g| g.hash()), store.get_packed_block(&h).map(|g| g.calc_header_hash())))) {
+                    Ok((None, None)) => {}
+                    Ok((a, b)) => bad.push(format!("side-chain block {}-{:x} has been removed, but get_block / get_packed_block answer {:?} / {:?}", s.number(), h, a.map(|x| format!("{:x}", x)), b.map(|x| format!("{:x}", x)))),
+                    Err(p) => { let msg = p.downcast_ref::<String>().cloned().or_else(|| p.downcast_ref::<&str>().map(|s| s.to_string())).unwrap_or_default(); bad.push(format!("reading the removed side-chain block {}-{:x} panics: {msg}", s.number(), h)); }
+                }
+                continue;
+            }
+            if !(un && pr) {
+                bad.push(format!("side-chain block {}-{:x} is torn: header row {} uncles row {} proposals row {} body rows {} (freezer number {:?})",
+                    s.number(), h, hd, un, pr, store.get_block_body(&h).len(), store.freezer().map(|f| f.number())));
+                continue;
+            }
+        }
+        match std::panic::catch_unwind(std::panic::AssertUnwindSafe(|| {
+            let mut b = vec![];
+            if let Some(g) = store.get_block(&h) { if g.hash() != h || g.data().as_slice() != s.data().as_slice() { b.push(format!("get_block of side-chain block {}-{:x} answers block {}-{:x}", s.number(), h, g.number(), g.hash())); } }
+            if let Some(g) = store.get_packed_block(&h) { if g.as_slice() != s.data().as_slice() { b.push(format!("get_packed_block of side-chain block {}-{:x} answers another block ({:x})", s.number(), h, g.calc_header_hash())); } }
+            let body = store.get_block_body(&h);
+            if !body.is_empty() && body.iter().map(|t| t.hash()).collect::<Vec<_>>() != s.tx_hashes().to_vec() { b.push(format!("get_block_body of side-chain block {}-{:x} answers other transactions", s.number(), h)); }
+            if let Some(u) = store.get_block_uncles(&h) { if u.data().as_slice() != s.uncles().data().as_slice() { b.push(format!("get_block_uncles of side-chain block {}-{:x} answers other uncles", s.number(), h)); } }
+            if let Some(p) = store.get_block_proposal_txs_ids(&h) { if p.as_slice() != s.data().proposals().as_slice() { b.push(format!("get_block_proposal_txs_ids of side-chain block {}-{:x} answers other proposals", s.number(), h)); } }
+            let e = store.get_block_extension(&h);
+            if store.get_block_uncles(&h).is_some() && e.as_ref().map(|e| e.as_slice().to_vec()) != s.extension().map(|e| e.as_slice().to_vec()) { b.push(format!("get_block_extension of side-chain block {}-{:x} answers another extension", s.number(), h)); }
+            b
+        })) {
+            Ok(b) => bad.extend(b),
+            Err(p) => { let msg = p.downcast_ref::<String>().cloned().or_else(|| p.downcast_ref::<&str>().map(|s| s.to_string())).unwrap_or_default(); bad.push(format!("reading side-chain block {}-{:x} panics: {msg}", s.number(), h)); }
+        }
+    }
+    bad
 }
 
 fn is_cell_key(k: &str) -> bool {
